@@ -538,14 +538,14 @@ Section Upd.
         (let stk := if tag_eqb tg TMANIFEST then us_stack s0 ++ [(pjoin rel f, rel)] else us_stack s0 in
          if tag_eqb tg TMANIFEST && mem_str rel (l_updated (us_l s0))
          then Ok (mk_us (us_l s0) (dict_del (pjoin rel f) (us_ed s0)) stk (us_ids s0), nw, lf) else
-         '(changed, sz, ck) <- upd_entry w (pjoin dp f) fe (Some hashes) (l_dev (us_l s0)) (if mem_str mpath nm then None else lm) ;;
+         '(changed, sz, ck) <- upd_entry w (pjoin dp f) fe (Some hashes) (l_dev (us_l s0)) (if mem_str mpath nm || mem_str mpath (l_updated (us_l s0)) then None else lm) ;;
          let l1 := set_entry_at (us_l s0) mpath id (with_size_cks fe sz ck) in
          let l2 := if changed then add_updated l1 mpath else l1 in
          Ok (mk_us l2 (dict_del (pjoin rel f) (us_ed s0)) stk (us_ids s0), nw, lf)) = Ok r ->
         UR s0 (fst (fst r)) /\ (UInv (fst (fst r)) /\ Forall (fun e => dt e = false) (snd (fst r)))).
       { intros tg. cbn zeta.
         destruct (tag_eqb tg TMANIFEST && mem_str rel (l_updated (us_l s0))); [apply Same; [apply Rdel; apply step_refl|exact N0]|].
-        destruct (upd_entry w (pjoin dp f) fe (Some hashes) (l_dev (us_l s0)) (if mem_str mpath nm then None else lm)) as [[[ch sz] ck]|]; cbn [bind]; [|discriminate].
+        destruct (upd_entry w (pjoin dp f) fe (Some hashes) (l_dev (us_l s0)) (if mem_str mpath nm || mem_str mpath (l_updated (us_l s0)) then None else lm)) as [[[ch sz] ck]|]; cbn [bind]; [|discriminate].
         apply Same; [|exact N0]. apply Rdel.
         assert (S1 : step (us_l s0) (set_entry_at (us_l s0) mpath id (with_size_cks fe sz ck))).
         { eapply step_set_entry_at; [exact Ee|exact De|rewrite with_size_cks_dt; exact De]. }
